@@ -153,6 +153,7 @@ class VirtualClock:
         self.tick = tick
         self.jump = jump
         self.sites = []
+        self.site_ids = []  # identity of the timer object behind each read
         self.record_sites = False
 
     def time(self):
@@ -165,10 +166,25 @@ class VirtualClock:
                 chain.append(f.f_code.co_name)
                 f = f.f_back
             self.sites.append(tuple(chain))
+            self.site_ids.append(id(sys._getframe(1).f_locals.get("self")))
         t = 1000.0 + self.reads * self.tick + self.offset
         if self.expire_at is not None and self.reads >= self.expire_at:
             t += self.jump
         return t
+
+
+def deadline_start_index(clock):
+    """Index (0-based) of the clock read that started the solve's deadline timer: the construction read of the timer object
+    whose reached_time_limit() is consulted later; if no deadline check was made, the read made by Timer.__init__ called from solve()."""
+    ids = [oid for chain, oid in zip(clock.sites, clock.site_ids) if "reached_time_limit" in chain]
+    if ids:
+        for i, (chain, oid) in enumerate(zip(clock.sites, clock.site_ids)):
+            if oid == ids[0] and chain and chain[0] == "__init__":
+                return i
+    for i, chain in enumerate(clock.sites):
+        if len(chain) > 2 and chain[0] == "__init__" and chain[1] == "__init__" and chain[2] == "solve":
+            return i
+    return None
 
 
 class ClockPatch:
